@@ -3,6 +3,7 @@ use crate::fw::Prop;
 pub mod c03;
 pub mod c06;
 pub mod c07;
+pub mod c08;
 pub mod c09;
 pub mod c10;
 pub mod c12;
@@ -10,6 +11,7 @@ pub mod c13;
 pub mod c14;
 pub mod c15;
 pub mod c16;
+pub mod c17;
 pub mod c18;
 pub mod c19;
 pub mod c20;
@@ -38,6 +40,7 @@ pub fn all() -> Vec<Box<dyn Prop>> {
         Box::new(c03::C03),
         Box::new(c06::C06),
         Box::new(c07::C07),
+        Box::new(c08::C08),
         Box::new(c09::C09),
         Box::new(c10::C10),
         Box::new(c10::C11),
@@ -46,6 +49,7 @@ pub fn all() -> Vec<Box<dyn Prop>> {
         Box::new(c14::C14),
         Box::new(c15::C15),
         Box::new(c16::C16),
+        Box::new(c17::C17),
         Box::new(c18::C18),
         Box::new(c19::C19),
         Box::new(c20::C20),
